@@ -1,5 +1,5 @@
 (* The structural acceptance rules of the XML importer (hwloc/topology-xml.c: hwloc_look_xml,
-   hwloc__xml_import_object, hwloc__xml_import_object_attr, plus the first test of hwloc_discover) over an
+   hwloc__xml_import_object, hwloc__xml_import_object_attr) over an
    abstract parsed document.
 
    A document is what the tokenizer delivers: the version of the topology tag and the elements below it;
@@ -268,7 +268,7 @@ Definition singleton_at (s : option bset) (i : N) : bool :=
   match s with Some b => match bs_weight b with Some 1 => mem i b | _ => false end | None => false end.
 
 (* the final type (Group -> Die), or None when the object is refused *)
-Definition checks (parent : option N) (o : ost) (t : N) : option N :=
+Definition checks (parent : option N) (psets : bool * bool) (o : ost) (t : N) : option N :=
   if (match parent with None => negb (t =? HWLOC_OBJ_MACHINE) | Some _ => t =? HWLOC_OBJ_MACHINE end) then None else
   if (match parent with
       | None => false
@@ -291,6 +291,8 @@ Definition checks (parent : option N) (o : ost) (t : N) : option N :=
   if (t' =? HWLOC_OBJ_PU) && negb (singleton_at (o_cs o) (o_os o)) then None else
   if (t' =? HWLOC_OBJ_NUMANODE) && negb (singleton_at (o_ns o) (o_os o)) then None else
   if (t' =? HWLOC_OBJ_BRIDGE) && negb (((o_bup o =? HWLOC_OBJ_BRIDGE_HOST) || (o_bup o =? HWLOC_OBJ_BRIDGE_PCI)) && (o_bdown o =? HWLOC_OBJ_BRIDGE_PCI)) then None else
+  (* a set while the parent has none (only reachable where the kind rules above already refuse) *)
+  if (match parent with None => false | Some _ => (negb nocs && negb (fst psets)) || (negb nons && negb (snd psets)) end) then None else
   Some t'.
 
 (* ---------- one <object> element ---------- *)
@@ -298,7 +300,7 @@ Inductive ores := OReject | OUnmodelled | OOk (ts : list tree) (rootinfo : optio
 
 Definition is_obj (e : elem) : bool := beq (e_tag e) "object".
 
-Fixpoint import_object (parent : option N) (e : elem) {struct e} : ores :=
+Fixpoint import_object (parent : option N) (psets : bool * bool) (e : elem) {struct e} : ores :=
   match e with
   | Elem _ attrs content _ kids =>
     let o := fold_left one_attr attrs (ost0 (match parent with None => true | Some _ => false end)) in
@@ -313,11 +315,12 @@ Fixpoint import_object (parent : option N) (e : elem) {struct e} : ores :=
       match o_type o with
       | None => OUnmodelled
       | Some t =>
-        match checks parent o t with
+        match checks parent psets o t with
         | None => OReject
         | Some t' =>
           let ign := o_ignore o in
           let cparent := if ign then parent else Some t' in
+          let cpsets := if ign then psets else (match o_cs o with Some _ => true | None => false end, match o_ns o with Some _ => true | None => false end) in
           (* the children: the sub-elements in front were judged by [subnodes]; from the first object on,
              every child must be an object *)
           (fix children (l : list elem) (seen : bool) (acc : list tree) {struct l} : ores :=
@@ -328,7 +331,7 @@ Fixpoint import_object (parent : option N) (e : elem) {struct e} : ores :=
                else OOk [T t' o (rev acc)] (o_cs o, o_ns o)
              | c :: tl =>
                if negb (is_obj c) then (if seen then OReject else children tl false acc) else
-               match import_object cparent c with
+               match import_object cparent cpsets c with
                | OReject => OReject
                | OUnmodelled => OUnmodelled
                | OOk ts _ => children tl true (rev_append ts acc)
@@ -361,7 +364,7 @@ Definition import_doc (d : doc) : verdict :=
   | [] => Reject
   | r :: rest =>
     if negb (is_obj r) then Reject else
-    match import_object None r with
+    match import_object None (true, true) r with
     | OReject => Reject
     | OUnmodelled => Unmodelled
     | OOk ts (rcs, rns) =>
@@ -372,10 +375,13 @@ Definition import_doc (d : doc) : verdict :=
         | TopUnsure => Unmodelled
         | TopDone =>
           match rcs, rns with
-          | Some cs, Some ns =>
-            if bs_is_empty ns then Reject
+          | Some _, Some ns =>
+            (* "root with empty nodeset": every NUMA node inserted below has already set its bit in the root's
+               nodeset (hwloc_insert_object_by_parent), so the parsed value only matters when there is none *)
+            if bs_is_empty ns && (count_type HWLOC_OBJ_NUMANODE t =? 0) then Reject
             else if (count_type HWLOC_OBJ_PU t =? 0) || (count_type HWLOC_OBJ_NUMANODE t =? 0) then Reject
-            else if bs_is_empty cs then Reject                  (* hwloc_discover: no PU added by the backend *)
+            (* hwloc_discover refuses a root whose cpuset is empty; like the nodeset, the root's cpuset has received
+               the bit of every PU inserted below it, so with at least one PU it is not *)
             else Accept t
           | _, _ => Reject
           end
